@@ -78,6 +78,7 @@ type FuncContract struct {
 	NoInline   bool
 	ReadsClock bool
 	NoAxioms   map[string]bool
+	OnlyAxioms map[string]bool
 	File       string
 	Line       int
 }
@@ -138,7 +139,7 @@ type Contracts struct {
 	Nclause int
 }
 
-var keywordRe = regexp.MustCompile(`^(spec|pred|axiom|lemma|globalinv|type|func|iface|functype|extern|props|atomic|holds|at_call|requires|ensures|ensures_panic|ghost_ensures|modifies|loop|assume|nopanic|maypanic|trusted|pure|readsclock|noaxioms|params|immutable|stable|guards|guarded_by|ghost|lockinv|extsync|mutators|setup|strings|noinline)\b`)
+var keywordRe = regexp.MustCompile(`^(spec|pred|axiom|lemma|globalinv|type|func|iface|functype|extern|props|atomic|holds|at_call|requires|ensures|ensures_panic|ghost_ensures|modifies|loop|assume|nopanic|maypanic|trusted|pure|readsclock|noaxioms|onlyaxioms|params|immutable|stable|guards|guarded_by|ghost|lockinv|extsync|mutators|setup|strings|noinline)\b`)
 
 var labelRe = regexp.MustCompile(`^([A-Za-z_][A-Za-z_0-9]*):([^:]|$)`)
 var propsRe = regexp.MustCompile(`^\{([A-Z0-9, ]+)\}\s*`)
@@ -395,6 +396,13 @@ func (cs *Contracts) LoadContractFile(path, pkg string) error {
 				curF.Pure = true
 			case "readsclock":
 				curF.ReadsClock = true
+			case "onlyaxioms":
+				if curF.OnlyAxioms == nil {
+					curF.OnlyAxioms = map[string]bool{}
+				}
+				for _, a := range strings.Fields(strings.ReplaceAll(rest, ",", " ")) {
+					curF.OnlyAxioms[a] = true
+				}
 			case "noaxioms":
 				if curF.NoAxioms == nil {
 					curF.NoAxioms = map[string]bool{}
